@@ -1,7 +1,11 @@
 import LeptosModel.Proofs.ViewRebuild
-/-! # Proofs/ViewAttrs — the static attribute fragment satisfies `AttrsFresh` / `AttrsRebuild` -/
+/-! # Proofs/ViewAttrs — the static attribute fragment satisfies `(AttrsFresh Eq)` / `(AttrsRebuild Eq)` -/
 namespace Leptos.View
 open Leptos.Dom
+
+-- `R`: how the attribute list of an element relates to the fresh render's (`Eq` for the static
+-- fragment, lookup-equality `AttrsEq` where removal and re-insertion change the order)
+variable {R : List (String × String) → List (String × String) → Prop}
 
 /-! ## stage 1 attribute fragment: `Attr<K, String>` items with pairwise distinct keys -/
 
@@ -99,7 +103,7 @@ theorem renderAttrs_static (as : List AttrVal) (h : StaticAttrs as) : renderAttr
     buildAttrs_static as (({} : Dom).createElement "x").1 0 _ hg rfl h.1 h.2 (by intro n _; rfl)
   simp [renderAttrs, Dom.attrsOf, h1, h2]
 
-theorem AttrsFresh_static (as : List AttrVal) (h : StaticAttrs as) : AttrsFresh as := by
+theorem AttrsFresh_static (as : List AttrVal) (h : StaticAttrs as) : (AttrsFresh Eq) as := by
   intro d el r hg hk hat
   obtain ⟨⟨r', h1, h2, h3⟩, h4, h5, h6⟩ :=
     buildAttrs_static as d el r hg hk h.1 h.2 (by intro n _; rw [hat]; rfl)
@@ -170,7 +174,7 @@ theorem rebuildAttrs_static (as : List AttrVal) : ∀ (bs : List AttrVal) (er : 
     rw [h7 y hy, hoth1 y hy]
 
 theorem AttrsRebuild_static (as bs : List AttrVal) (ha : StaticAttrs as) (hb : StaticAttrs bs)
-    (hty : as.map AttrVal.ty = bs.map AttrVal.ty) : AttrsRebuild as bs := by
+    (hty : as.map AttrVal.ty = bs.map AttrVal.ty) : (AttrsRebuild Eq) as bs := by
   intro er d el r hg hk hat
   obtain ⟨⟨r', h1, h2, h3⟩, h4, h5, h6⟩ :=
     rebuildAttrs_static as bs er d el r [] hg hk ha.1 hb.1 hty ha.2
